@@ -265,6 +265,17 @@ func c17Specs(c *pure.Ctx, try func(desc string, jc *execution.JobConfig, option
 	jc = baseJobConfig("x")
 	jc.Spec.Concurrency.Policy = ""
 	try("no-policy", jc, "")
+	// User metadata in the job template that collides with furiko's own bookkeeping keys
+	// (e.g. pasted from the YAML of a Job): accepted, so Jobs made from it must still be processable.
+	jc = baseJobConfig("x")
+	jc.Spec.Template.Labels = map[string]string{"execution.furiko.io/job-config-uid": "uid-of-something-else", "team": "x"}
+	try("template-label-job-config-uid", jc, "")
+	jc = baseJobConfig("x")
+	jc.Spec.Template.Annotations = map[string]string{"execution.furiko.io/schedule-time": "1604188500"}
+	try("template-annotation-schedule-time", jc, "")
+	jc = baseJobConfig("x")
+	jc.Spec.Template.Finalizers = []string{"example.com/other"}
+	try("template-finalizer", jc, "")
 }
 
 // ---- update immutability ----
